@@ -255,6 +255,10 @@ func (x *Exec) initGhost(st *State) {
 // SMT script assembly.
 
 func (e *Engine) script(o *Obligation, dropQuant bool) string {
+	if o.RawSMT != "" {
+		// standalone lemma: prelude + raw SMT text (the text asserts the negation of the lemma)
+		return "(set-option :produce-models true)\n(set-logic ALL)\n" + keyDatatype() + preludeDecls + prelude + decPrelude + preludeAxioms + o.RawSMT
+	}
 	var sb strings.Builder
 	sb.WriteString("(set-option :produce-models true)\n(set-logic ALL)\n")
 	sb.WriteString(keyDatatype())
